@@ -24,8 +24,137 @@ structure StateOk (G : Group) [Fact (Nat.Prime G.p.natAbs)] (S : State) : Prop w
 def Mem (G : Group) [Fact (Nat.Prime G.p.natAbs)] (a : Int) : Prop :=
   0 < a ∧ a < G.p ∧ toF G a ^ G.q.natAbs = 1
 
+/-! ### helper lemmas -/
+
+theorem q_natAbs_ne_zero (hG : ValidGroup G) : G.q.natAbs ≠ 0 := by
+  have := hG.q_pos; omega
+
+theorem resp_range (hG : ValidGroup G) (e : Int) : ¬ (e % G.q).natAbs ≥ G.q.natAbs := by
+  have hq := hG.q_pos
+  have h1 := Int.emod_nonneg e (ne_of_gt hq)
+  have h2 := Int.emod_lt_of_pos e hq
+  omega
+
+theorem fits_of_hashOk {H : Hash} (hH : HashOk H) (s : String) : challengeFits (H s) = true := by
+  simp [challengeFits, (hH s).2]
+
 section
 variable [Fact (Nat.Prime G.p.natAbs)]
+
+-- some hypotheses of the (fixed) statements below are not needed by the proofs
+set_option linter.unusedVariables false
+
+theorem ne_zero_of_pow_eq_one {a : F G} {n : Nat} (hn : n ≠ 0) (h : a ^ n = 1) : a ≠ 0 := by
+  rintro rfl
+  rw [zero_pow hn] at h
+  exact zero_ne_one h
+
+theorem Mem.ne_zero (hG : ValidGroup G) {a : Int} (h : Mem G a) : toF G a ≠ 0 :=
+  ne_zero_of_pow_eq_one (q_natAbs_ne_zero hG) h.2.2
+
+theorem toF_zero : toF G 0 = 0 := by unfold toF; simp
+
+theorem pos_of_toF_ne_zero {a : Int} (h0 : 0 ≤ a) (h : toF G a ≠ 0) : 0 < a := by
+  rcases Int.lt_or_eq_of_le h0 with h1 | h1
+  · exact h1
+  · subst h1; exact absurd toF_zero h
+
+theorem zpow_pow_q {b : F G} {n : Nat} (h : b ^ n = 1) (e : Int) : (b ^ e) ^ n = 1 := by
+  rw [← zpow_natCast, ← zpow_mul, mul_comm, zpow_mul, zpow_natCast, h, one_zpow]
+
+theorem mem_of_val {a : Int} (h0 : 0 ≤ a) (hp : a < G.p) {v : F G}
+    (hv : toF G a = v) (hv0 : v ≠ 0) (hvq : v ^ G.q.natAbs = 1) : Mem G a :=
+  ⟨pos_of_toF_ne_zero h0 (hv ▸ hv0), hp, hv ▸ hvq⟩
+
+theorem cp_alg (hG : ValidGroup G) (a : F G) (ha : a ^ G.q.natAbs = 1) (α ω c : Int) :
+    a ^ ((ω - c * α) % G.q) * (a ^ α) ^ c = a ^ ω := by
+  have h0 := ne_zero_of_pow_eq_one (q_natAbs_ne_zero hG) ha
+  rw [zpow_mod_q hG a ha h0, ← zpow_mul, ← zpow_add₀ h0]
+  congr 1; ring
+
+theorem cpVerify_ok (hG : ValidGroup G) (H : Hash) (Sv : State) (hv : StateOk G Sv)
+    (x y gg hh c r : Int) (tab : Bool) (hc : challengeFits c = true)
+    (hr : ¬ r.natAbs ≥ G.q.natAbs) (htab : tab = true → gg = G.g ∧ hh = Sv.h)
+    (hgg0 : toF G gg ≠ 0) (hhh0 : toF G hh ≠ 0) (hx0 : toF G x ≠ 0) (hy0 : toF G y ≠ 0)
+    (a b : Int) (ha : 0 ≤ a ∧ a < G.p) (hb : 0 ≤ b ∧ b < G.p)
+    (hav : toF G a = toF G gg ^ r * toF G x ^ c) (hbv : toF G b = toF G hh ^ r * toF G y ^ c)
+    (hcc : H (cpInput Sv a b x y gg hh) = c) :
+    cpVerify H Sv x y gg hh c r tab = .ok true := by
+  have hp1 := one_lt_p hG
+  obtain ⟨xc, hxc, -, -, hxcv⟩ := mpzPowm_val hG x c hx0
+  obtain ⟨yc, hyc, -, -, hycv⟩ := mpzPowm_val hG y c hy0
+  have hrq : r.natAbs < G.q.natAbs := by omega
+  have key : ∀ ggr hhr : Int, toF G ggr = toF G gg ^ r → toF G hhr = toF G hh ^ r →
+      ggr * xc % G.p = a ∧ hhr * yc % G.p = b := by
+    intro ggr hhr h1 h2
+    constructor
+    · apply eq_of_toF_eq hG ⟨Int.emod_nonneg _ (by omega), Int.emod_lt_of_pos _ (by omega)⟩ ha
+      rw [toF_emod hG, toF_mul, h1, hxcv, hav]
+    · apply eq_of_toF_eq hG ⟨Int.emod_nonneg _ (by omega), Int.emod_lt_of_pos _ (by omega)⟩ hb
+      rw [toF_emod hG, toF_mul, h2, hycv, hbv]
+  cases tab with
+  | false =>
+    obtain ⟨ggr, hggr, -, -, hggrv⟩ := mpzPowm_val hG gg r hgg0
+    obtain ⟨hhr, hhhr, -, -, hhhrv⟩ := mpzPowm_val hG hh r hhh0
+    obtain ⟨e1, e2⟩ := key ggr hhr hggrv hhhrv
+    simp [cpVerify, hv.grp, bind, Except.bind, pure, Except.pure, hc, hr, hxc, hyc, hggr, hhhr, e1, e2, hcc]
+  | true =>
+    obtain ⟨rfl, rfl⟩ := htab rfl
+    obtain ⟨ggr, hggr, -, -, hggrv⟩ := fpowm_val hG Sv.tabG G.g r hv.tabG hgg0 hrq
+    obtain ⟨hhr, hhhr, -, -, hhhrv⟩ := fpowm_val hG Sv.tabH Sv.h r hv.tabH hhh0 hrq
+    obtain ⟨e1, e2⟩ := key ggr hhr hggrv hhhrv
+    simp [cpVerify, hv.grp, bind, Except.bind, pure, Except.pure, hc, hr, hxc, hyc, hggr, hhhr, e1, e2, hcc]
+
+theorem mulmod_val (hG : ValidGroup G) (a b : Int) :
+    0 ≤ a * b % G.p ∧ a * b % G.p < G.p ∧ toF G (a * b % G.p) = toF G a * toF G b := by
+  have hp1 := one_lt_p hG
+  exact ⟨Int.emod_nonneg _ (by omega), Int.emod_lt_of_pos _ (by omega), by rw [toF_emod hG, toF_mul]⟩
+
+theorem mem_g (hG : ValidGroup G) : Mem G G.g :=
+  ⟨by have := hG.g_gt; omega, hG.g_lt, g_pow_q hG⟩
+
+theorem StateOk.mem_h {S : State} (hS : StateOk G S) : Mem G S.h :=
+  ⟨hS.h_range.1, hS.h_range.2, hS.h_mem⟩
+
+theorem or_alg (hG : ValidGroup G) (a : F G) (ha : a ^ G.q.natAbs = 1) (α v c : Int) :
+    (a ^ α) ^ c * a ^ ((v - c * α % G.q) % G.q) = a ^ v := by
+  have h0 := ne_zero_of_pow_eq_one (q_natAbs_ne_zero hG) ha
+  rw [zpow_mod_q hG a ha h0, zpow_sub₀ h0, zpow_mod_q hG a ha h0, ← zpow_mul, mul_comm c α]
+  have := zpow_ne_zero (α * c) h0
+  field_simp
+
+theorem orVerify_ok (hG : ValidGroup G) (H : Hash) (Sv : State) (hv : StateOk G Sv)
+    (y1 y2 g1 g2 c1 c2 r1 r2 : Int) (hy1 : toF G y1 ≠ 0) (hy2 : toF G y2 ≠ 0)
+    (hg1 : toF G g1 ≠ 0) (hg2 : toF G g2 ≠ 0)
+    (hr1 : ¬ r1.natAbs ≥ G.q.natAbs) (hr2 : ¬ r2.natAbs ≥ G.q.natAbs)
+    (t1 t2 : Int) (ht1 : 0 ≤ t1 ∧ t1 < G.p) (ht2 : 0 ≤ t2 ∧ t2 < G.p)
+    (t1v : toF G t1 = toF G y1 ^ c1 * toF G g1 ^ r1)
+    (t2v : toF G t2 = toF G y2 ^ c2 * toF G g2 ^ r2)
+    (hc : (c1 + c2) % G.q = H (orInput Sv g1 y1 g2 y2 t1 t2) % G.q) :
+    orVerify H Sv y1 y2 g1 g2 c1 c2 r1 r2 = .ok true := by
+  have hq := hG.q_pos
+  obtain ⟨a, ha, -, -, av⟩ := mpzPowm_val hG y1 c1 hy1
+  obtain ⟨b, hb, -, -, bv⟩ := mpzPowm_val hG g1 r1 hg1
+  obtain ⟨a2, ha2, -, -, a2v⟩ := mpzPowm_val hG y2 c2 hy2
+  obtain ⟨b2, hb2, -, -, b2v⟩ := mpzPowm_val hG g2 r2 hg2
+  obtain ⟨u0, up, uv⟩ := mulmod_val hG a b
+  obtain ⟨w0, wp, wv⟩ := mulmod_val hG a2 b2
+  have e1 : a * b % G.p = t1 := by
+    apply eq_of_toF_eq hG ⟨u0, up⟩ ht1; rw [uv, av, bv, t1v]
+  have e2 : a2 * b2 % G.p = t2 := by
+    apply eq_of_toF_eq hG ⟨w0, wp⟩ ht2; rw [wv, a2v, b2v, t2v]
+  have hq0 : G.q ≠ 0 := by omega
+  simp [orVerify, hv.grp, bind, Except.bind, pure, Except.pure, hr1, hr2, ha, hb, ha2, hb2, e1, e2,
+    mpzMod, hq0, hc]
+
+theorem key_alg (hG : ValidGroup G) (a : F G) (ha : a ^ G.q.natAbs = 1) (x r c : Int) :
+    a ^ ((c * x % G.q + r) % G.q) * ((a ^ x) ^ c)⁻¹ = a ^ r := by
+  have h0 := ne_zero_of_pow_eq_one (q_natAbs_ne_zero hG) ha
+  rw [zpow_mod_q hG a ha h0, zpow_add₀ h0, zpow_mod_q hG a ha h0, ← zpow_mul, mul_comm c x]
+  have := zpow_ne_zero (x * c) h0
+  field_simp
+
+/-! ### the completeness theorems -/
 
 /-- key share NIZK: honest prover with secret `x`, public key `hi = g^x`, any commitment coin `v` -/
 theorem nizk_complete (hG : ValidGroup G) (H : Hash) (hH : HashOk H) (Sp Sv : State)
@@ -33,7 +162,27 @@ theorem nizk_complete (hG : ValidGroup G) (H : Hash) (hH : HashOk H) (Sp Sv : St
     (hx : 0 ≤ Sp.x ∧ Sp.x < G.q) (hhi : Mem G Sp.hi) (hkey : toF G Sp.hi = toF G G.g ^ Sp.x)
     (v : Int) (hv' : 0 ≤ v ∧ v < G.q) :
     ∃ c r, nizkProve H Sp v = .ok (c, r) ∧ nizkVerify H .schnorr Sv Sp.hi c r = .ok true := by
-  sorry
+  have hgM := mem_g hG
+  have hg0 := hgM.ne_zero hG
+  have hhi0 := hhi.ne_zero hG
+  have hvq : v.natAbs < G.q.natAbs := by omega
+  obtain ⟨t, ht, t0, tp, tv⟩ := fspowm_val hG Sp.tabG G.g v hp.tabG hg0 hvq
+  have hprove : nizkProve H Sp v = .ok (H (shashInput [G.p, G.q, G.g, Sp.hi, t]),
+      (v - H (shashInput [G.p, G.q, G.g, Sp.hi, t]) * Sp.x) % G.q) := by
+    simp [nizkProve, hp.grp, bind, Except.bind, ht]
+  refine ⟨_, _, hprove, ?_⟩
+  have hfits := fits_of_hashOk hH (shashInput [G.p, G.q, G.g, Sp.hi, t])
+  generalize hc : H (shashInput [G.p, G.q, G.g, Sp.hi, t]) = c at hfits ⊢
+  have hk : checkElement .schnorr G Sp.hi = true := (checkElement_iff hG _).2 hhi
+  have hr := resp_range hG (v - c * Sp.x)
+  obtain ⟨gr, hgr, -, -, grv⟩ := fpowm_val hG Sv.tabG G.g ((v - c * Sp.x) % G.q) hv.tabG hg0
+    (by omega)
+  obtain ⟨kc, hkc, -, -, kcv⟩ := mpzPowm_val hG Sp.hi c hhi0
+  obtain ⟨e0, ep, ev⟩ := mulmod_val hG gr kc
+  have e : gr * kc % G.p = t := by
+    apply eq_of_toF_eq hG ⟨e0, ep⟩ ⟨t0, tp⟩
+    rw [ev, grv, kcv, hkey, tv, cp_alg hG _ hgM.2.2]
+  simp [nizkVerify, hv.grp, bind, Except.bind, pure, Except.pure, hk, hfits, hr, hgr, hkc, e, hc]
 
 /-- Chaum–Pedersen, both modes: `x = gg^α`, `y = hh^α` with `gg, hh` in the subgroup -/
 theorem cp_complete (hG : ValidGroup G) (H : Hash) (hH : HashOk H) (Sp Sv : State)
@@ -43,7 +192,35 @@ theorem cp_complete (hG : ValidGroup G) (H : Hash) (hH : HashOk H) (Sp Sv : Stat
     (hω : 0 ≤ ω ∧ ω < G.q) (tab : Bool) (htab : tab = true → gg = G.g ∧ hh = Sp.h) :
     ∃ c r, cpProve H Sp x y gg hh α ω tab = .ok (c, r) ∧
       cpVerify H Sv x y gg hh c r tab = .ok true := by
-  sorry
+  have hgg0 := hgg.ne_zero hG
+  have hhh0 := hhh.ne_zero hG
+  have hωq : ω.natAbs < G.q.natAbs := by omega
+  have hcommit : ∃ a b, (0 ≤ a ∧ a < G.p) ∧ (0 ≤ b ∧ b < G.p) ∧ toF G a = toF G gg ^ ω ∧
+      toF G b = toF G hh ^ ω ∧
+      cpProve H Sp x y gg hh α ω tab =
+        .ok (H (cpInput Sp a b x y gg hh), (ω - H (cpInput Sp a b x y gg hh) * α) % G.q) := by
+    cases tab with
+    | false =>
+      obtain ⟨a, ha, ha0, hap, hav⟩ := spowm_val hG gg ω hgg0
+      obtain ⟨b, hb, hb0, hbp, hbv⟩ := spowm_val hG hh ω hhh0
+      exact ⟨a, b, ⟨ha0, hap⟩, ⟨hb0, hbp⟩, hav, hbv, by
+        simp [cpProve, hp.grp, bind, Except.bind, pure, Except.pure, ha, hb]⟩
+    | true =>
+      obtain ⟨rfl, rfl⟩ := htab rfl
+      obtain ⟨a, ha, ha0, hap, hav⟩ := fspowm_val hG Sp.tabG G.g ω hp.tabG hgg0 hωq
+      obtain ⟨b, hb, hb0, hbp, hbv⟩ := fspowm_val hG Sp.tabH Sp.h ω hp.tabH hhh0 hωq
+      exact ⟨a, b, ⟨ha0, hap⟩, ⟨hb0, hbp⟩, hav, hbv, by
+        simp [cpProve, hp.grp, bind, Except.bind, pure, Except.pure, ha, hb]⟩
+  obtain ⟨a, b, ha, hb, hav, hbv, hprove⟩ := hcommit
+  refine ⟨_, _, hprove, ?_⟩
+  have hin : cpInput Sv a b x y gg hh = cpInput Sp a b x y gg hh := by
+    simp [cpInput, hp.grp, hv.grp, hsame]
+  apply cpVerify_ok hG H Sv hv x y gg hh _ _ tab (fits_of_hashOk hH _) (resp_range hG _)
+    (by rw [← hsame]; exact htab) hgg0 hhh0 ?_ ?_ a b ha hb ?_ ?_ (by rw [hin])
+  · rw [hx.2.2]; exact zpow_ne_zero _ hgg0
+  · rw [hy.2.2]; exact zpow_ne_zero _ hhh0
+  · rw [hav, hx.2.2, cp_alg hG _ hgg.2.2]
+  · rw [hbv, hy.2.2, cp_alg hG _ hhh.2.2]
 
 /-- masking: the card `(g^r, m·h^r)` of a message `m` in the group, proved with the table mode
     (this is the statement the pinned tree violated: finding F1) -/
@@ -52,7 +229,35 @@ theorem mask_complete (hG : ValidGroup G) (H : Hash) (hH : HashOk H) (Sp Sv : St
     (m : Int) (hm : Mem G m) (r ω : Int) (hr : 0 ≤ r ∧ r < G.q) (hω : 0 ≤ ω ∧ ω < G.q) :
     ∃ c pc pr, Vtmf.mask Sp m r = .ok c ∧ maskProve H Sp m c r ω = .ok (pc, pr) ∧
       maskVerify H .schnorr Sv m c pc pr = .ok true := by
-  sorry
+  have hgM := mem_g hG
+  have hhM := hp.mem_h
+  have hg0 := hgM.ne_zero hG
+  have hh0 := hhM.ne_zero hG
+  have hm0 := hm.ne_zero hG
+  have hrq : r.natAbs < G.q.natAbs := by omega
+  obtain ⟨c1, hc1, c10, c1p, c1v⟩ := fspowm_val hG Sp.tabG G.g r hp.tabG hg0 hrq
+  obtain ⟨e, he, -, -, ev⟩ := fspowm_val hG Sp.tabH Sp.h r hp.tabH hh0 hrq
+  have hmask : Vtmf.mask Sp m r = .ok ⟨c1, e * m % G.p⟩ := by
+    simp [Vtmf.mask, hp.grp, bind, Except.bind, hc1, he]
+  obtain ⟨c20, c2p, c2v⟩ := mulmod_val hG e m
+  rw [ev] at c2v
+  obtain ⟨mi, hmi, -, -, miv⟩ := invm_val hG m hm0
+  obtain ⟨y0, yp, yv⟩ := mulmod_val hG mi (e * m % G.p)
+  have yv' : toF G (mi * (e * m % G.p) % G.p) = toF G Sp.h ^ r := by
+    rw [yv, miv, c2v]; field_simp
+  obtain ⟨pc, pr, hprove, hverify⟩ := cp_complete hG H hH Sp Sv hp hv hsame c1
+    (mi * (e * m % G.p) % G.p) G.g Sp.h r ω hgM hhM ⟨c10, c1p, c1v⟩ ⟨y0, yp, yv'⟩ hω true
+    (fun _ => ⟨rfl, rfl⟩)
+  have hk1 : checkElement .schnorr G c1 = true :=
+    (checkElement_iff hG c1).2 (mem_of_val c10 c1p c1v (zpow_ne_zero _ hg0) (zpow_pow_q hgM.2.2 r))
+  have hk2 : checkElement .schnorr G (e * m % G.p) = true :=
+    (checkElement_iff hG _).2 (mem_of_val c20 c2p c2v
+      (mul_ne_zero (zpow_ne_zero _ hh0) hm0)
+      (by rw [mul_pow, zpow_pow_q hhM.2.2 r, hm.2.2, one_mul]))
+  rw [hsame] at hverify
+  refine ⟨_, pc, pr, hmask, ?_, ?_⟩
+  · simpa [maskProve, hp.grp, hmi] using hprove
+  · simpa [maskVerify, hv.grp, hmi, hk1, hk2, bind, Except.bind, pure, Except.pure] using hverify
 
 /-- re-masking of a card whose components are in the group -/
 theorem remask_complete (hG : ValidGroup G) (H : Hash) (hH : HashOk H) (Sp Sv : State)
@@ -61,7 +266,50 @@ theorem remask_complete (hG : ValidGroup G) (H : Hash) (hH : HashOk H) (Sp Sv : 
     (r ω : Int) (hr : 0 ≤ r ∧ r < G.q) (hω : 0 ≤ ω ∧ ω < G.q) :
     ∃ c' pc pr, Vtmf.remask Sp c r tap = .ok c' ∧ remaskProve H Sp c c' r ω = .ok (pc, pr) ∧
       remaskVerify H .schnorr Sv c c' pc pr = .ok true := by
-  sorry
+  have hgM := mem_g hG
+  have hhM := hp.mem_h
+  have hg0 := hgM.ne_zero hG
+  have hh0 := hhM.ne_zero hG
+  have h10 := hc1.ne_zero hG
+  have h20 := hc2.ne_zero hG
+  have hrq : r.natAbs < G.q.natAbs := by omega
+  have hremask : ∃ gr hr', toF G gr = toF G G.g ^ r ∧ toF G hr' = toF G Sp.h ^ r ∧
+      Vtmf.remask Sp c r tap = .ok ⟨gr * c.c1 % G.p, hr' * c.c2 % G.p⟩ := by
+    cases tap with
+    | true =>
+      obtain ⟨gr, hgr, -, -, grv⟩ := fspowm_val hG Sp.tabG G.g r hp.tabG hg0 hrq
+      obtain ⟨e, he, -, -, ev⟩ := fspowm_val hG Sp.tabH Sp.h r hp.tabH hh0 hrq
+      exact ⟨gr, e, grv, ev, by simp [Vtmf.remask, hp.grp, bind, Except.bind, hgr, he]⟩
+    | false =>
+      obtain ⟨gr, hgr, -, -, grv⟩ := fpowm_val hG Sp.tabG G.g r hp.tabG hg0 hrq
+      obtain ⟨e, he, -, -, ev⟩ := fpowm_val hG Sp.tabH Sp.h r hp.tabH hh0 hrq
+      exact ⟨gr, e, grv, ev, by simp [Vtmf.remask, hp.grp, bind, Except.bind, hgr, he]⟩
+  obtain ⟨gr, e, grv, ev, hremask⟩ := hremask
+  obtain ⟨a0, ap, av⟩ := mulmod_val hG gr c.c1
+  obtain ⟨b0, bp, bv⟩ := mulmod_val hG e c.c2
+  rw [grv] at av
+  rw [ev] at bv
+  obtain ⟨i1, hi1, -, -, i1v⟩ := invm_val hG c.c1 h10
+  obtain ⟨i2, hi2, -, -, i2v⟩ := invm_val hG c.c2 h20
+  obtain ⟨x0, xp, xv⟩ := mulmod_val hG i1 (gr * c.c1 % G.p)
+  obtain ⟨y0, yp, yv⟩ := mulmod_val hG i2 (e * c.c2 % G.p)
+  have xv' : toF G (i1 * (gr * c.c1 % G.p) % G.p) = toF G G.g ^ r := by
+    rw [xv, i1v, av]; field_simp
+  have yv' : toF G (i2 * (e * c.c2 % G.p) % G.p) = toF G Sp.h ^ r := by
+    rw [yv, i2v, bv]; field_simp
+  obtain ⟨pc, pr, hprove, hverify⟩ := cp_complete hG H hH Sp Sv hp hv hsame _ _
+    G.g Sp.h r ω hgM hhM ⟨x0, xp, xv'⟩ ⟨y0, yp, yv'⟩ hω true (fun _ => ⟨rfl, rfl⟩)
+  have hk1 : checkElement .schnorr G (gr * c.c1 % G.p) = true :=
+    (checkElement_iff hG _).2 (mem_of_val a0 ap av (mul_ne_zero (zpow_ne_zero _ hg0) h10)
+      (by rw [mul_pow, zpow_pow_q hgM.2.2 r, hc1.2.2, one_mul]))
+  have hk2 : checkElement .schnorr G (e * c.c2 % G.p) = true :=
+    (checkElement_iff hG _).2 (mem_of_val b0 bp bv (mul_ne_zero (zpow_ne_zero _ hh0) h20)
+      (by rw [mul_pow, zpow_pow_q hhM.2.2 r, hc2.2.2, one_mul]))
+  rw [hsame] at hverify
+  refine ⟨_, pc, pr, hremask, ?_, ?_⟩
+  · simpa [remaskProve, hp.grp, hi1, hi2] using hprove
+  · simpa [remaskVerify, hv.grp, hi1, hi2, hk1, hk2, bind, Except.bind, pure, Except.pure]
+      using hverify
 
 /-- decryption share: prover `j` with secret `x_j`, verifier holding `h_j` under the prover's
     fingerprint; the accumulator is multiplied by the share -/
@@ -73,7 +321,16 @@ theorem decrypt_complete (hG : ValidGroup G) (H : Hash) (hH : HashOk H) (Sp Sv :
     ∃ d pc pr, decryptProve H Sp c1 ω = .ok (d, pc, pr) ∧
       toF G d = toF G c1 ^ Sp.x ∧
       decryptVerifyUpdate H .schnorr Sv c1 d fp pc pr = .ok (verifyUpdateAccept Sv d, true) := by
-  sorry
+  have hgM := mem_g hG
+  have h10 := hc1.ne_zero hG
+  obtain ⟨d, hd, d0, dp, dv⟩ := spowm_val hG c1 Sp.x h10
+  obtain ⟨pc, pr, hprove, hverify⟩ := cp_complete hG H hH Sp Sv hp hv hsame d Sp.hi c1 G.g Sp.x ω
+    hc1 hgM ⟨d0, dp, dv⟩ ⟨hhi.1.le, hhi.2.1, hkey⟩ hω false (by simp)
+  have hk : checkElement .schnorr G d = true :=
+    (checkElement_iff hG _).2 (mem_of_val d0 dp dv (zpow_ne_zero _ h10) (zpow_pow_q hc1.2.2 _))
+  refine ⟨d, pc, pr, ?_, dv, ?_⟩
+  · simp [decryptProve, hp.grp, bind, Except.bind, hd, hprove]
+  · simp [decryptVerifyUpdate, hv.grp, hstored, hk, hverify, bind, Except.bind, pure, Except.pure]
 
 /-- OR proof, first branch known (`y_1 = g_1^α`), second arbitrary group elements -/
 theorem or_first_complete (hG : ValidGroup G) (H : Hash) (hH : HashOk H) (Sp Sv : State)
@@ -83,7 +340,23 @@ theorem or_first_complete (hG : ValidGroup G) (H : Hash) (hH : HashOk H) (Sp Sv 
     (hv1 : 0 ≤ v1 ∧ v1 < G.q) (hv2 : 0 ≤ v2 ∧ v2 < G.q) (hw : 0 ≤ w ∧ w < G.q) :
     ∃ c1 c2 r1 r2, orProveFirst H Sp y1 y2 g1 g2 α v1 v2 w = .ok [c1, c2, r1, r2] ∧
       orVerify H Sv y1 y2 g1 g2 c1 c2 r1 r2 = .ok true := by
-  sorry
+  have hg10 := hg1.ne_zero hG
+  have hg20 := hg2.ne_zero hG
+  have hy10 := hy1.ne_zero hG
+  have hy20 := hy2.ne_zero hG
+  obtain ⟨t2a, ht2a, -, -, t2av⟩ := spowm_val hG y2 w hy20
+  obtain ⟨t2b, ht2b, -, -, t2bv⟩ := spowm_val hG g2 v2 hg20
+  obtain ⟨t1, ht1, t10, t1p, t1v⟩ := spowm_val hG g1 v1 hg10
+  obtain ⟨t20, t2p, t2v⟩ := mulmod_val hG t2a t2b
+  have hin : orInput Sv g1 y1 g2 y2 t1 (t2a * t2b % G.p) = orInput Sp g1 y1 g2 y2 t1 (t2a * t2b % G.p) := by
+    simp [orInput, hp.grp, hv.grp, hsame]
+  refine ⟨_, _, _, _, by
+    simp only [orProveFirst, hp.grp, bind, Except.bind, ht2a, ht2b, ht1]; rfl, ?_⟩
+  apply orVerify_ok hG H Sv hv y1 y2 g1 g2 _ _ _ _ hy10 hy20 hg10 hg20 (resp_range hG _)
+    (resp_range hG _) t1 (t2a * t2b % G.p) ⟨t10, t1p⟩ ⟨t20, t2p⟩
+  · rw [t1v, hstmt, or_alg hG _ hg1.2.2]
+  · rw [t2v, t2av, t2bv, zpow_mod_q hG _ hg2.2.2 hg20]
+  · rw [hin, Int.emod_add_emod, sub_add_cancel, Int.emod_emod_of_dvd _ (dvd_refl _)]
 
 theorem or_second_complete (hG : ValidGroup G) (H : Hash) (hH : HashOk H) (Sp Sv : State)
     (hp : StateOk G Sp) (hv : StateOk G Sv) (hsame : Sp.h = Sv.h)
@@ -92,7 +365,23 @@ theorem or_second_complete (hG : ValidGroup G) (H : Hash) (hH : HashOk H) (Sp Sv
     (hv1 : 0 ≤ v1 ∧ v1 < G.q) (hv2 : 0 ≤ v2 ∧ v2 < G.q) (hw : 0 ≤ w ∧ w < G.q) :
     ∃ c1 c2 r1 r2, orProveSecond H Sp y1 y2 g1 g2 α v1 v2 w = .ok [c1, c2, r1, r2] ∧
       orVerify H Sv y1 y2 g1 g2 c1 c2 r1 r2 = .ok true := by
-  sorry
+  have hg10 := hg1.ne_zero hG
+  have hg20 := hg2.ne_zero hG
+  have hy10 := hy1.ne_zero hG
+  have hy20 := hy2.ne_zero hG
+  obtain ⟨t1a, ht1a, -, -, t1av⟩ := spowm_val hG y1 w hy10
+  obtain ⟨t1b, ht1b, -, -, t1bv⟩ := spowm_val hG g1 v1 hg10
+  obtain ⟨t2, ht2, t20, t2p, t2v⟩ := spowm_val hG g2 v2 hg20
+  obtain ⟨t10, t1p, t1v⟩ := mulmod_val hG t1a t1b
+  have hin : orInput Sv g1 y1 g2 y2 (t1a * t1b % G.p) t2 = orInput Sp g1 y1 g2 y2 (t1a * t1b % G.p) t2 := by
+    simp [orInput, hp.grp, hv.grp, hsame]
+  refine ⟨_, _, _, _, by
+    simp only [orProveSecond, hp.grp, bind, Except.bind, ht1a, ht1b, ht2]; rfl, ?_⟩
+  apply orVerify_ok hG H Sv hv y1 y2 g1 g2 _ _ _ _ hy10 hy20 hg10 hg20 (resp_range hG _)
+    (resp_range hG _) (t1a * t1b % G.p) t2 ⟨t10, t1p⟩ ⟨t20, t2p⟩
+  · rw [t1v, t1av, t1bv, zpow_mod_q hG _ hg1.2.2 hg10]
+  · rw [t2v, hstmt, or_alg hG _ hg2.2.2]
+  · rw [hin, Int.add_emod_emod, add_sub_cancel, Int.emod_emod_of_dvd _ (dvd_refl _)]
 
 /-- interactive proof of knowledge of the key share: commitment `m_1 = g^r`, any challenge
     `|c| < q` (drawn by the verifier, or the outcome of the coin flip in the public-coin form),
@@ -104,7 +393,25 @@ theorem key_interactive_complete (hG : ValidGroup G) (Sp Sv : State)
     (hm1 : 0 ≤ m1 ∧ m1 < G.p ∧ toF G m1 = toF G G.g ^ r) :
     ∃ m2, keyProveRespond Sp r c = some m2 ∧
       keyVerifyFinal .schnorr Sv Sp.hi m1 c m2 = .ok true := by
-  sorry
+  have hgM := mem_g hG
+  have hg0 := hgM.ne_zero hG
+  have hhi0 := hhi.ne_zero hG
+  have hc' : ¬ c.natAbs ≥ G.q.natAbs := by omega
+  refine ⟨(c * Sp.x % G.q + r) % G.q, by simp [keyProveRespond, hp.grp, hc'], ?_⟩
+  have hk : checkElement .schnorr G m1 = true :=
+    (checkElement_iff hG _).2 (mem_of_val hm1.1 hm1.2.1 hm1.2.2 (zpow_ne_zero _ hg0)
+      (zpow_pow_q hgM.2.2 _))
+  have hr2 := resp_range hG (c * Sp.x % G.q + r)
+  obtain ⟨gm, hgm, -, -, gmv⟩ := fpowm_val hG Sv.tabG G.g ((c * Sp.x % G.q + r) % G.q) hv.tabG hg0
+    (by omega)
+  obtain ⟨kc, hkc, -, -, kcv⟩ := mpzPowm_val hG Sp.hi c hhi0
+  obtain ⟨ki, hki, -, -, kiv⟩ := invm_val hG kc (by rw [kcv]; exact zpow_ne_zero _ hhi0)
+  obtain ⟨e0, ep, ev⟩ := mulmod_val hG gm ki
+  have e : gm * ki % G.p = m1 := by
+    apply eq_of_toF_eq hG ⟨e0, ep⟩ ⟨hm1.1, hm1.2.1⟩
+    rw [ev, gmv, kiv, kcv, hkey, hm1.2.2, key_alg hG _ hgM.2.2]
+  generalize (c * Sp.x % G.q + r) % G.q = m2 at hr2 hgm ⊢
+  simp [keyVerifyFinal, hv.grp, bind, Except.bind, pure, Except.pure, hk, hr2, hgm, hkc, hki, e]
 
 end
 end Tmcg.SigmaComplete
